@@ -39,6 +39,7 @@ type c12Base struct {
 	local     *net.UDPAddr
 	// write faults (C13)
 	blockWrites  bool
+	deadlineLag  time.Duration // a blocked write notices an expired deadline only this much later (a slow kernel)
 	release      chan struct{}
 	deadline     time.Time
 	deadlineLog  []time.Time
@@ -93,7 +94,7 @@ func (b *c12Base) writeOne(p []byte, dst netip.AddrPort) (int, error) {
 		b.inWrite++
 		b.cond.Broadcast()
 		for {
-			if !b.deadline.IsZero() && !time.Now().Before(b.deadline) {
+			if !b.deadline.IsZero() && !time.Now().Before(b.deadline.Add(b.deadlineLag)) {
 				b.inWrite--
 				b.mu.Unlock()
 
